@@ -1,6 +1,8 @@
 #[cfg(feature = "debug")]
 mod debug;
 
+#[cfg(laythe_verif)]
+pub mod verif;
 mod basic;
 mod error;
 mod hooks;
@@ -343,6 +345,9 @@ impl Vm {
       loop {
         // get the current instruction
         let op_code: ByteCode = ByteCode::from_byte_unchecked(self.read_byte());
+
+        #[cfg(laythe_verif)]
+        verif::probe(self);
 
         #[cfg(feature = "debug")]
         {
